@@ -25,7 +25,11 @@ func (c *puFn) checkOwnership() error {
 				return false
 			}
 			switch n.(type) {
-			case *ast.FuncLit, *ast.GoStmt, *ast.DeferStmt, *ast.SelectStmt, *ast.SendStmt, *ast.LabeledStmt, *ast.RangeStmt,
+			case *ast.RangeStmt:
+				if !c.grp.g.rich {
+					bad = c.errf(n, "construct %T outside the translated subset", n)
+				}
+			case *ast.FuncLit, *ast.GoStmt, *ast.DeferStmt, *ast.SelectStmt, *ast.SendStmt, *ast.LabeledStmt,
 				*ast.TypeSwitchStmt, *ast.TypeAssertExpr, *ast.StarExpr:
 				bad = c.errf(n, "construct %T outside the translated subset", n)
 			}
@@ -89,7 +93,8 @@ func (c *puFn) checkOwnership() error {
 							bad = c.errf(l, "element assignment into something that is not x[i] / x.f[i]")
 						}
 					}
-					if len(x.Lhs) == len(x.Rhs) && isAppend(x.Rhs[i]) != nil {
+					// (rich groups: append is translated as a value under the alias classes of pure_nas.go instead)
+					if len(x.Lhs) == len(x.Rhs) && isAppend(x.Rhs[i]) != nil && !c.grp.g.rich {
 						if v, f, ok := pathOf(l); ok {
 							written = append(written, wr{v, f, l})
 						} else {
